@@ -8,6 +8,7 @@ import Mathlib.Algebra.Order.AbsoluteValue.Basic
 import Mathlib.Tactic.Ring
 import Mathlib.Tactic.Linarith
 import Mathlib.Tactic.FieldSimp
+import Mathlib.Analysis.InnerProductSpace.Basic
 
 namespace OdlModel.Prox
 variable {K : Type} [Field K] [LinearOrder K] [IsStrictOrderedRing K]
@@ -35,5 +36,29 @@ theorem signK_mul_self (a : K) : signK a * a = |a| := by
   · rw [abs_of_neg h2]; ring
   · have : a = 0 := le_antisymm (not_lt.mp h1) (not_lt.mp h2)
     simp [this]
+
+
+/-! ## the abstract layer: functionals on a real inner product space -/
+section Abstract
+variable {E : Type} [NormedAddCommGroup E] [InnerProductSpace ℝ E]
+
+/-- A functional on `E` is a pair `(C, f)`: finite with value `f z` on `C`, `+∞` outside.
+`ProxVI C f σ x p`: `p ∈ C` and `(x − p)/σ` is a subgradient of `f` at `p` — the variational
+inequality (resolvent characterisation) of `p = prox_{σ f}(x)`. -/
+def ProxVI (C : Set E) (f : E → ℝ) (σ : ℝ) (x p : E) : Prop :=
+  p ∈ C ∧ ∀ z ∈ C, σ * f p + inner ℝ (x - p) (z - p) ≤ σ * f z
+
+/-- `P` is the proximal operator of `σ·(C, f)`. -/
+def IsProx (C : Set E) (f : E → ℝ) (σ : ℝ) (P : E → E) : Prop := ∀ x, ProxVI C f σ x (P x)
+
+/-- `(D, fs)` behaves as the convex conjugate of `(C, f)`: Fenchel–Young holds, with equality
+at every subgradient pair.  (Both hold for the Fenchel conjugate of any `f`; neither convexity
+nor closedness is needed for the direction used by `proximal_convex_conj`.) -/
+def IsConjPair (C : Set E) (f : E → ℝ) (D : Set E) (fs : E → ℝ) : Prop :=
+  (∀ z ∈ C, ∀ y ∈ D, inner ℝ z y ≤ f z + fs y) ∧
+  (∀ p ∈ C, ∀ g : E, (∀ z ∈ C, f p + inner ℝ g (z - p) ≤ f z) →
+    g ∈ D ∧ f p + fs g = inner ℝ p g)
+
+end Abstract
 
 end OdlModel.Prox
